@@ -157,6 +157,19 @@ def na_false_undefined(spec, table):
     return False
 
 
+def declared_names(spec, table):
+    """table columns that some column spec of the schema selects (literally or through its regular expression)"""
+    import re
+
+    out = []
+    for t in table["columns"]:
+        for c in spec["columns"]:
+            if (c.get("regex") and re.match(c["name"], t["name"])) or (not c.get("regex") and c["name"] == t["name"]):
+                out.append(t["name"])
+                break
+    return out
+
+
 def build(case):
     spec, table = case["spec"], case["table"]
     schema = sp.polars_schema(spec)
@@ -557,6 +570,11 @@ def eval_c11(case):
         return ev
     plain = copy.deepcopy(spec)
     plain["drop_invalid_rows"] = False
+    if case.get("nan_cells"):
+        table = copy.deepcopy(table)  # (reference: a NaN cell is a null cell)
+        for name, r in case["nan_cells"]:
+            next(t for t in table["columns"] if t["name"] == name)["cells"][r] = None
+        ev.labels.append("float-NaN-cells")
     try:
         ref = refmodel.ref_validate(plain, table)
     except refmodel.Undefined as e:
@@ -608,7 +626,7 @@ def eval_c11(case):
         return ev
     want = snap(frame)
     if spec.get("strict") == "filter":
-        declared = [c["name"] for c in spec["columns"]]
+        declared = declared_names(spec, table)
         want = dict(want, schema=[x for x in want["schema"] if x[0] in declared],
                     cells={k: v for k, v in want["cells"].items() if k in declared})
         if not want["cells"]:
@@ -641,7 +659,7 @@ def eval_c20(case):
         return ev
     from . import c20 as _c20
 
-    if spec.get("strict") == "filter" and not any(c["name"] in {t["name"] for t in table["columns"]} for c in spec["columns"]):
+    if spec.get("strict") == "filter" and not declared_names(spec, table):
         ev.skipped = "strict='filter' removes every column (a polars frame without columns has no rows)"
         return ev
     tcols_ = {t["name"]: t for t in table["columns"]}
@@ -712,7 +730,7 @@ def eval_c20(case):
                 got = snap(o["value"])
                 want = before
                 if spec.get("strict") == "filter":
-                    declared = [c["name"] for c in spec["columns"]]
+                    declared = declared_names(spec, table)
                     want = dict(before, schema=[x for x in before["schema"] if x[0] in declared],
                                 cells={k: v for k, v in before["cells"].items() if k in declared})
                 if (got["schema"], got["cells"], got["kind"]) != (want["schema"], want["cells"], want["kind"]):
@@ -761,9 +779,23 @@ def strat_c20(draw):
 
 @st.composite
 def strat_c11(draw):
-    case = draw(strat_case(parsers="none", containers=("df", "df", "lf_full")))
+    case = draw(strat_case(parsers="none", containers=("df", "df", "lf_full"), regex_rate=2))
     case["spec"]["drop_invalid_rows"] = True
     case["lazy"] = True
+    if draw(st.integers(0, 4)) == 0:
+        # float NaN cells in a non-nullable float column without other constraints (polars documents that its nullable
+        # check treats NaN like null): the rows holding them are invalid
+        names = {c["name"].strip("^$").strip("()").split("|")[0]: c for c in case["spec"]["columns"]}
+        fl = [t for t in case["table"]["columns"] if t["phys"] == "float64" and t["cells"] and t["name"] in names
+              and names[t["name"]].get("dtype") == "float64"]
+        if fl:
+            t = draw(st.sampled_from(fl))
+            c = names[t["name"]]
+            c["checks"], c["unique"], c["nullable"] = [], False, False
+            if t["name"] in (case["spec"].get("unique") or []):
+                case["spec"]["unique"] = None
+            rows = sorted(draw(st.sets(st.integers(0, len(t["cells"]) - 1), min_size=1, max_size=2)))
+            case["nan_cells"] = [[t["name"], r] for r in rows]
     return case
 
 
